@@ -406,6 +406,16 @@ def eng_deadline_probes(mods, mon, tag):
     return eng
 
 
+def eng_expiry_load(ctx):
+    """Hundreds to thousands of leases that run out at one instant while requests reach the subscription at that
+    very moment (no settling between the clock jump and the requests), then a drain: everything comes back."""
+    sizes = (255, 256, 257, 512, 1000, 2000) if not ctx.thorough else (1, 255, 256, 257, 300, 511, 512, 513, 767, 768,
+                                                                       1000, 1024, 2000, 3000, 5000)
+    cases = seeded(gen.expiry_load_cases(sizes, reps=(1, 4) if not ctx.thorough else (1, 2, 4, 8)))
+    return ctx.seq("expiry-load", cases, relevant={"PULL", "STATS"}, triggers={"PULL"}, monitor=M.mon_fanout,
+                   always_monitor=True)
+
+
 def eng_deadline_pure(ctx):
     """AckDeadline::new against round_deadline: every ms phase of the 100 ms grid, sub-ms and sub-us offsets."""
     rng = random.Random(ctx.seed + 5)
@@ -678,8 +688,9 @@ reg("C03", [eng_data_random(M.mon_exclusive, {"PULL"}, tag="data-random"),
                "(model structure), validated on the real server only with one request in flight at a time.")
 
 reg("C04", [eng_deadline_pure, eng_deadline_probes((None,), M.mon_deadline, "deadline-probes"),
-            eng_data_random(M.mon_deadline, {"PULL"}, tag="data-random")],
-    rule="deadline-pure: AckDeadline::new on every ms phase, sub-ms and sub-us offsets and random instants; "
+            eng_data_random(M.mon_deadline, {"PULL"}, tag="data-random"), eng_expiry_load],
+    rule="expiry-load: 255..5000 leases running out at one instant while requests arrive at that moment, then a drain; "
+         "deadline-pure: AckDeadline::new on every ms phase, sub-ms and sub-us offsets and random instants; "
          "deadline-probes: per hand-out phase and ack deadline, two coexisting leases probed 1 ms before, at and 1 ms "
          "after each deadline. non-trivial = a delivery happened",
     monitor=M.mon_deadline, title="Unacked deliveries are redelivered at the ack deadline, never earlier", design_ref="7/C04",
@@ -832,7 +843,7 @@ def eng_capacity_drain(ctx):
 reg("C01", [lambda ctx: eng_control_enum(ctx),
             eng_data_random(mon_c01, {"PUB"}, streams=True, tag="data-stream-drain", drain=True, always=True),
             eng_control_random(mon_c01, {"PUB"}, drain=True, always=True), eng_data_enum(M.mon_payload, {"PUB"}),
-            eng_capacity_drain],
+            eng_capacity_drain, eng_expiry_load],
     rule="random scripts with several subscriptions per topic, streams, nack/expiry cycles, deletions and re-creations of "
          "topic and subscription names, each followed by a drain (every lease left to run out, every stream read, every "
          "subscription pulled until an empty answer): mon_fanout reads off the implementation's answers that nothing "
